@@ -2,13 +2,16 @@
 
 TLC (specs/Rules_Gen.tla, specs/DefRoundTrip_Gen.tla) enumerates task definitions and
 computes every expected value (rule verdict per value assignment, projection that a
-dictionary round trip must preserve, expected command line).  This module only
-  * writes cfg files and runs the generators (sharded over processes),
+dictionary round trip must preserve, as-built prediction, expected command line).
+This module
+  * writes cfg files and runs the generators (one TLC process per shard, inside the
+    pool workers, so generation and replay of different shards overlap),
   * materialises a definition as *source text* of a python.define / shell.define call
     (written to a module file in the scratch directory and imported),
-  * runs the real pydra code (``_check_rules``, direct execution, workflow nodes with
-    constant and with lazy inputs, ``unstructure``/``structure``) and projects what it saw.
-Nothing in here decides a verdict.
+  * runs the real pydra code (`_check_rules`, direct execution, workflow nodes with
+    constant and with lazy inputs, `unstructure`/`structure`), projects what it saw into
+    the shape of the TLC case and compares the two (compare_table, judge_context,
+    roundtrip_def).  Every expected value in those comparisons comes from the TLC case.
 """
 from __future__ import annotations
 
